@@ -79,6 +79,7 @@ class Schedule(Target):
     inline_class = {'this': (CT, 'Controller')}
     pure = ('FlowIR.ParseProducerReference', 'experiment.model.frontends.flowir.FlowIR.ParseProducerReference')
     max_paths = 400000
+    second_rate = 50             # thorough: every 50th z3 discharge is re-checked by cvc5
     trusted = ["networkx predecessors/nodes", "FlowIR.ParseProducerReference on concrete node names (C09)",
                "weakref of the component in the graph node is alive"]
     assumptions = ["one consumer with <= %d producers (states symbolic); I_done: a producer observed as done is in a final "
